@@ -297,6 +297,7 @@ func init() {
 			}
 			c := sx.L(sx.A(ty.name), anySexp(a))
 			short := sx.L(sx.A(ty.name), sx.A(form), sx.A(text))
+			noteCase("C16", ty.name+" "+text)
 			dst := reflect.New(ty.t).Interface()
 			var uerr error
 			panicked := ""
